@@ -44,6 +44,7 @@ type Knobs struct {
 	FaultRate     int      `json:"fault_rate,omitempty"`
 	FaultKinds    []string `json:"fault_kinds,omitempty"`
 	Torn          bool     `json:"torn,omitempty"`
+	FaultRecover  bool     `json:"fault_recover,omitempty"` // after an injected fault the model is re-synchronised with what the server shows instead of giving up on the repository
 	Lives         int      `json:"lives,omitempty"` // crash engine: 2 = the history goes on after one of its crash points (crash, recovery, work, crash)
 }
 
